@@ -445,3 +445,47 @@ def sb1(ctx, R):
         if not found:
             R.violation(q + "::partial length", top.where(), "no loop gives the first incomplete buffer/channel `remaining bytes // width` rows out of a byte budget that "
                         "complete ones decrement: the truncated chunk logic changed shape (e.g. every buffer gets min(length, remaining // width) rows)")
+
+
+@rule("SZ1", "the byte size of a segment's chunk is summed from data_size only where DAQmx segments are excluded", floor=1)
+def sz1(ctx, R):
+    """DAQmx segment objects do not carry a data_size: the size of a DAQmx chunk comes from the buffer widths (get_daqmx_chunk_size).
+    Wherever the segment class sums its objects' data_size into a chunk size, the conditions that lead there (in the function, or at
+    every call of it inside the class) must include a test that excludes DAQmx objects; otherwise the size is 0 for DAQmx segments."""
+    from .sym import Sym, contains
+    from .sem import calls_to
+    prog = ctx.prog
+    seg = prog.cls("tdms_segment.TdmsSegment")
+    DQ = ("class", "daqmx.DaqmxSegmentObject")
+    from .region import region as _region
+
+    def mentions_daqmx_class(q):
+        f = prog.functions.get(q)
+        return f is not None and any(isinstance(x, (ast.Name, ast.Attribute)) and (dotted(x) or "").split(".")[-1] == "DaqmxSegmentObject"
+                                     for g in _region(ctx, f, depth=1) for x in ast.walk(g.node))
+
+    def is_daqmx_test(g):
+        # a test of the objects' class, written out or behind a predicate method of the segment
+        return contains(g, lambda y: y == DQ or (isinstance(y, tuple) and len(y) == 4 and y[0] == "call" and isinstance(y[1], str) and mentions_daqmx_class(y[1])))
+    n = 0
+    for m in sorted(seg.methods.values(), key=lambda f: f.qual):
+        sy = None
+        for c in walk_body(m.node):
+            if isinstance(c, ast.Call) and call_name(c) == "sum" and c.args and any(
+                    isinstance(x, ast.Attribute) and x.attr == "data_size" for x in ast.walk(c.args[0])):
+                n += 1
+                sy = sy or Sym(prog, m, seg, inline=False)
+                _env, guards = sy.env_at(c)
+                key = "%s::sum of data_size" % m.qual
+                ok = any(is_daqmx_test(g) for g in guards)
+                if not ok:
+                    sites = [(h, cc) for h in seg.methods.values() if h is not m for cc in calls_to(prog, h, m.qual, seg)]
+                    ok = bool(sites) and all(any(is_daqmx_test(g) for g in Sym(prog, h, seg, inline=False).env_at(cc)[1]) for h, cc in sites)
+                if ok:
+                    R.ok(key, m.where(c), "reached only when the segment has no DAQmx objects")
+                else:
+                    R.violation(key, m.where(c), "`%s` computes a chunk size from the objects' data_size on a path that is open to DAQmx segments: DAQmx "
+                                "segment objects have data_size 0 (their chunk size comes from the buffer widths), so for them this size is 0" % unparse(c)[:70])
+    if n == 0:
+        R.unrecognised("tdms_segment.TdmsSegment::chunk size", "%s:%d" % (seg.module.relpath, seg.node.lineno),
+                       "no sum over the objects' data_size in the segment class: how the chunk size of plain segments is computed was not recognised")
